@@ -17,6 +17,7 @@ type 'k cfg = {
   iter : [ `All | `Keys | `Probe ];
   key_ok : 'k -> bool;                (* ares_htable_dict_insert rejects the empty key *)
   claim : bool;
+  keys_requests : int;                (* fa:<n> is meaningful for n <= this (as: 1, dict: 2) *)
 }
 
 type 'k item =
@@ -77,6 +78,12 @@ let run_cfg (cfg : 'k cfg) (casetext : string) (ops : string list) =
     | ["n"] -> IOp (HtOpNumKeys, false)
     | ["a"] -> (match cfg.iter with `Probe -> probe | _ -> IOp (HtOpAll true, false))
     | ["fa"] -> (match cfg.iter with `All -> IOp (HtOpAll false, false) | _ -> IBad)
+    | ["fa"; n] ->
+      (* keys() of asvp / dict with one of its first requests refused: NULL *)
+      let n = int_of_string n in
+      (match cfg.iter with
+       | `Keys when n >= 0 && n <= cfg.keys_requests -> IOp (HtOpAll false, false)
+       | _ -> IBad)
     | _ -> IBad
     with _ -> IBad in
   let items = List.map item ops @ (match cfg.iter with `Probe -> [probe] | _ -> []) in
@@ -194,15 +201,30 @@ let id_key s = s
 let zk = z_of_string
 let mask32 x = x land 0xFFFFFFFF
 
+(* mode fnv: the modelled hash functions against the library's (correspondence only: the
+   specification says nothing about hash values, so the spec line is the model line) *)
+let run_fnv ops =
+  let toks = List.map (fun op ->
+    match split_on ':' op with
+    | ["h"; seed; s] ->
+      (try
+         let sd = z_of_int (int_of_string seed) and b = bytes_of_string s in
+         string_of_z (ht_fnv1a b sd) ^ "/" ^ string_of_z (ht_fnv1a_casecmp b sd)
+       with _ -> "BADOP")
+    | _ -> "BADOP") (List.filter (fun o -> o <> "") ops) in
+  let l = String.concat " " toks in
+  (l, l, if List.length toks >= 2 then "ht-fnv" else "trivial")
+
 let run ops =
   match ops with
   | [] -> ("BADMODE", "BADMODE", "trivial-badmode")
+  | "fnv" :: rest -> run_fnv rest
   | mode :: rest ->
     let casetext = String.concat ";" ops in
     let rest = List.filter (fun o -> o <> "") rest in
     let num_cfg ~hashes ~exact ~npre ~fmt_entry ~fmt_freed ~iter = {
       keq = ht_szvp_keq; hashes; exact; kparse = zk; kprint = string_of_z; npre;
-      fmt_entry; fmt_freed; iter; key_ok = (fun _ -> true); claim = false } in
+      fmt_entry; fmt_freed; iter; key_ok = (fun _ -> true); claim = false; keys_requests = 1 } in
     let h_id = (fun k _ -> k) and h_const c = (fun _ _ -> z_of_int c)
     and h_mul = (fun k _ -> z_of_int (mask32 (int_of_z k * 2654435761)))
     and h_lin = (fun k _ -> z_of_int (mask32 (int_of_z k * 31 + 7))) in
@@ -235,7 +257,7 @@ let run ops =
                         fmt_freed = (if is_dict then (fun _ _ -> []) else (fun _ v -> [v]));
                         iter = (if is_dict then `Keys else `Probe);
                         key_ok = (if is_dict then ht_dict_key_ok else (fun _ -> true));
-                        claim = not is_dict } casetext rest)
+                        claim = not is_dict; keys_requests = 2 } casetext rest)
       | _ -> None in
     (match res with
      | None -> ("BADMODE", "BADMODE", "trivial-badmode")
